@@ -303,7 +303,12 @@ class Interval(Duration, Generic[_T]):
         while op(start, end):
             yield start
 
-            start = getattr(self.start, method)(**{unit: i})
+            try:
+                start = getattr(self.start, method)(**{unit: i})
+            except (OverflowError, ValueError):
+                # The next value is outside the range of supported dates,
+                # hence beyond the end of the interval.
+                return
 
             i += amount
 
